@@ -216,6 +216,19 @@ func (ex *Exec) addFact(t *Term) {
 	if t == TTrue || ex.pure {
 		return
 	}
+	// split top-level conjunctions (also under one implication) so that slicing works per conjunct
+	if t.Head == "and" && t.Bind == nil {
+		for _, a := range t.Args {
+			ex.addFact(a)
+		}
+		return
+	}
+	if t.Head == "=>" && len(t.Args) == 2 && t.Args[1].Head == "and" && t.Args[1].Bind == nil {
+		for _, a := range t.Args[1].Args {
+			ex.addFact(Implies(t.Args[0], a))
+		}
+		return
+	}
 	ex.facts = append(ex.facts, t)
 	ex.factBlk = append(ex.factBlk, ex.curBlk)
 }
